@@ -22,9 +22,11 @@ package limiters
 //@ extern func (L).Close(l L)
 
 // Semaphore: a buffered channel of capacity max; capacity <= 0 means unlimited.
+// (the semaphore's channel is never closed: the package contains no close of it - Close() is a no-op)
 //@ func (Semaphore).Take
 //@   prop C11
 //@   nopanic
+//@   requires !chanclosed(s.c)
 //@   modifies chans()
 //@   ensures result
 //@   ensures chancap(s.c) > 0 ==> chanlen(s.c) == old(chanlen(s.c)) + 1 && chanlen(s.c) <= chancap(s.c)
@@ -32,7 +34,7 @@ package limiters
 //@ func (Semaphore).TakeContext
 //@   prop C11
 //@   nopanic
-//@   requires ctx != nil
+//@   requires ctx != nil && !chanclosed(s.c)
 //@   modifies chans()
 //@   ensures chancap(s.c) > 0 && result == nil ==> chanlen(s.c) == old(chanlen(s.c)) + 1 && chanlen(s.c) <= chancap(s.c)
 //@   ensures chancap(s.c) <= 0 ==> result == nil
